@@ -1887,7 +1887,17 @@ class AbelianArray(BlockBase):
         _zeros = ar.get_lib_fn(backend, "zeros")
         zeros_kwargs = {}
         if hasattr(_ex_array, "dtype"):
-            zeros_kwargs["dtype"] = _ex_array.dtype
+            dtype_names = {ar.get_dtype_name(x) for x in self.blocks.values()}
+            if len(dtype_names) > 1:
+                # blocks of mixed dtype, e.g. from real + complex: the fused
+                # blocks must be able to hold every one of them
+                import numpy as np
+
+                zeros_kwargs["dtype"] = ar.to_backend_dtype(
+                    np.result_type(*dtype_names).name, like=backend
+                )
+            else:
+                zeros_kwargs["dtype"] = _ex_array.dtype
         if hasattr(_ex_array, "device"):
             zeros_kwargs["device"] = _ex_array.device
 
